@@ -39,6 +39,31 @@ func respFor(id []byte, n int) []byte {
 
 // n = exhaustive depth
 func (g *gen) clientHist(depth int) {
+	// two overlapping collector calls, each with several expired transactions (no retransmission: every expiry is a
+	// final time-out, so the order of the two calls does not matter)
+	for i := 0; i < 6; i++ {
+		g.caseMark("client-ticks2", i)
+		g.emit("CL new 100 0 %d 1 0 0", i%2)
+		hn := 1
+		for _, at := range []int{0, 50} {
+			g.emit("CL clock %d", at)
+			for k := 0; k < 2+i%3; k++ {
+				id := g.r.bytes(12)
+				g.emit("CL start %s %s %d", showHex(id), showHex(reqFor(id, 28, 1)), hn)
+				hn++
+			}
+		}
+		g.emit("CL ticks2 101 151")
+		g.emit("CL tick 100000")
+		g.emit("CL close")
+	}
+	// the default collector with a clock of the client's own (standing still in the past / running ahead)
+	for i, n := range []int{1, 5} {
+		for mode := 0; mode < 2; mode++ {
+			g.caseMark("client-clock", 2*i+mode)
+			g.emit("CL realclock %d %d", n, mode)
+		}
+	}
 	ids := [][]byte{
 		{1, 2, 3, 4, 5, 6, 7, 8, 9, 10, 11, 12},
 		{1, 2, 3, 4, 5, 6, 7, 8, 9, 10, 11, 13}, // differs in one bit
